@@ -14,7 +14,7 @@ HARNESSES = [
     {"fn": "h_lookup", "cases": [""], "timeout": {"quick": 60, "thorough": 300}},
     {"fn": "h_cli_sev", "cases": ["%s:%d" % (m, t) for m in ("list", "count", "all") for t in (1, 2)], "quick_cases": ["list:2", "count:1"], "timeout": {"quick": 90, "thorough": 300}},
     {"fn": "h_lookup_cli", "cases": ["first:d1", "second:d2"], "quick_cases": ["first:d1"], "timeout": {"quick": 60, "thorough": 300}},
-    {"fn": "h_mapping", "cases": ["list:sw", "list:sev", "count:sw6", "all:sw6", "count:sev"], "quick_cases": ["list:sev", "all:sw6"],
+    {"fn": "h_mapping", "cases": ["list:sw", "list:sev", "count:sw6", "all:sw6", "count:sev", "list:twice"], "quick_cases": ["list:sev", "all:sw6", "list:twice"],
      "timeout": {"quick": 90, "thorough": 300}},
 ]
 FUNCTIONS += ["pel.peltool.peltool.main (option -> Config mapping)"]
@@ -110,7 +110,7 @@ def h_mapping() -> bool:
     names = [n for n, _ in sorted(peltool.severityGroupValues.items(), key=lambda kv: kv[1])]
     mode_, dims = CASE.split(":")
     allsw = ("every_pel", "serviceable", "non_serviceable", "hidden", "critSysTerm", "only", "hex", "reverse", "skip_plugins")
-    symsw = {"sw": allsw, "sw6": allsw[:6], "sev": ()}[dims]
+    symsw = {"sw": allsw, "sw6": allsw[:6], "sev": (), "twice": ()}[dims]
     sw = {k: (bool(sym_bool(k)) if k in symsw else False) for k in allsw}
     nsev = sym_int("nsev", 0, 2 if dims == "sev" else 0)
     picks = [sym_int("s%d" % i, 0, 6) for i in range(2)]
@@ -126,6 +126,11 @@ def h_mapping() -> bool:
     fn = {"list": "listOption", "count": "printPELCount", "all": "extractAllPELsData"}[mode_]
     w = World(files=[])
     with patched(peltool, **{fn: lambda path, config: seen.append((path, config))}):
+        if dims == "twice":
+            # an earlier invocation in the same process (with -S) must not influence this one
+            first = Namespace(**dict(ARG_DEFAULTS, path="/pels", severities=[names[int(concrete_choice(picks[0], 7))]], list=True))
+            run_main(peltool, World(files=[]), first)
+            del seen[:]
         status = run_main(peltool, w, ns)
     conds = [status == 0, len(seen) == 1]
     if len(seen) == 1:
